@@ -63,6 +63,14 @@ def faithful (fuel : Nat) (t u : PT) (next : Nat) : Bool :=
     nodupNat (st.subst.map (·.1)) &&
     (t.paxes ++ u.paxes).all (fun k => (clone st.subst FUEL (Axis.phys k.1 k.2)).fv.all (fun q => (bound st.subst q.1).isNone))
 
+/-- the second side condition of `C13b.compareImpl_eq_compareModel`: every binding of the substitution found by a successful
+unification is resolved by `FUEL - 1` units of fuel (its clone contains no bound axis) -/
+def resolved (fuel : Nat) (t u : PT) (next : Nat) : Bool :=
+  match unifyAll fuel (t.vaxes.zip u.vaxes) ⟨[], next⟩ with
+  | (false, _) => true
+  | (true, st) =>
+    st.subst.all (fun p => (clone st.subst (FUEL - 1) p.2).fv.all (fun q => (bound st.subst q.1).isNone))
+
 /-! ### protocol -/
 
 def showOptBool : Option Bool → String
@@ -73,7 +81,7 @@ def handle : List String → Option (Except String String)
   | "C13.impl" :: rest => some do
       let (t, u, rtol, atol, en, next) ← Tok.run (do
         let t ← parsePT; let u ← parsePT; let r ← Tok.rat; let a ← Tok.rat; let e ← Tok.bool; let n ← Tok.nat; pure (t, u, r, a, e, n)) rest
-      pure s!"{showOptBool (compareImpl Ext.eqIEEE FUEL t u next)} {showOptBool (compareImpl (isclose rtol atol en) FUEL t u next)} {showBool (faithful FUEL t u next)} {showBool (t.equalModel u)} {showBool (t.allcloseModel rtol atol en u)}"
+      pure s!"{showOptBool (compareImpl Ext.eqIEEE FUEL t u next)} {showOptBool (compareImpl (isclose rtol atol en) FUEL t u next)} {showBool (faithful FUEL t u next && resolved FUEL t u next)} {showBool (t.equalModel u)} {showBool (t.allcloseModel rtol atol en u)}"
   | _ => none
 
 end Fggs.Eq
